@@ -11,7 +11,8 @@ use log::{error, info};
 use std::io::{self, BufRead};
 use std::process;
 #[cfg(feature = "verif_loom")]
-use crate::sched::io::{self, BufRead};
+#[allow(unused_imports)]
+use crate::sched::io::{self, BufRead, Read, Write};
 #[cfg(feature = "verif_loom")]
 use crate::sched::{mpsc, thread};
 #[cfg(not(feature = "verif_loom"))]
